@@ -108,6 +108,21 @@ def gen_cases(tier, rng):
             t = bytearray(honest); t[b // 8] ^= 1 << (b % 8)
             reg = "version" if b < 32 else "checksum" if b < 96 else "seqnum" if b < 128 else "ciphertext"
             cases.append(c.final(bytes(t), "flip-" + reg))
+        # multi-byte alterations of the checksum (bytes 4..11 of the token): the same mask XORed into two bytes (differences that
+        # cancel in an XOR-folding comparison), all 28 byte pairs; swapped bytes; a wholly different checksum
+        if ci == 0 or not quick:
+            for i in range(4, 12):
+                for j in range(i + 1, 12):
+                    for mask in ((0x01, 0x80, 0xff) if ci == 0 else (0x5a,)):
+                        t = bytearray(honest); t[i] ^= mask; t[j] ^= mask
+                        cases.append(c.final(bytes(t), "flip-checksum2"))
+            for i in range(4, 11):
+                if honest[i] != honest[i + 1]:
+                    t = bytearray(honest); t[i], t[i + 1] = t[i + 1], t[i]
+                    cases.append(c.final(bytes(t), "flip-checksum2"))
+        for _ in range(300 if (quick and ci == 0) else 20 if quick else 3000):
+            t = bytearray(honest); t[4:12] = rbytes(rng, 8)
+            if bytes(t) != honest: cases.append(c.final(bytes(t), "flip-checksum2"))
         # bit flips of the DER wrapper around it
         r2 = credssp.ts_request(pub_key_auth=honest)
         hdr = len(r2) - len(honest)
